@@ -57,6 +57,8 @@ def conc_runs(ctx, jobs):
             args += ["-fault", j["fault"]]
         if j.get("fat"):
             args += ["-fat", str(j["fat"])]
+        if j.get("setro"):
+            args.append("-setro")
         if j.get("huge"):
             args += ["-huge", str(j["huge"])]
         if j.get("nkeys"):
